@@ -95,7 +95,7 @@ func ruleAugOnce(c *Ctx) []Obligation {
 	if merge == nil {
 		return []Obligation{undecided(R, "link function", pos, "no unique function stores Entry.namespace")}
 	}
-	finds := c.callsTo(aug, find)
+	finds := c.callsToLookup(aug, find)
 	if len(finds) != 1 {
 		return []Obligation{undecided(R, "target lookup", pos, fmt.Sprintf("%d Find calls in the augment applier", len(finds)))}
 	}
